@@ -17,6 +17,7 @@ mod pc16;
 mod pc19;
 mod pcrep;
 mod pcchan;
+mod pcsize;
 
 fn main() {
     explore::install_panic_hook();
@@ -31,7 +32,8 @@ fn main() {
     let ctx: &'static Ctx = Box::leak(Box::new(c));
     match id.as_str() {
         "C01" => pc01::run_c01(ctx),
-        "C02" | "C06" | "C07" | "C08" | "C09" | "C13" | "C20" => pcrep::run_emitted(ctx, Box::leak(id.clone().into_boxed_str())),
+        "C06" => { pcrep::run_emitted(ctx, "C06"); pcsize::run(ctx, "C06") }
+        "C02" | "C07" | "C08" | "C09" | "C13" | "C20" => pcrep::run_emitted(ctx, Box::leak(id.clone().into_boxed_str())),
         "C03" => pcrep::run_c03(ctx),
         "C05" => pcrep::run_c05(ctx),
         "C14" => pc01::run_c14(ctx),
